@@ -322,6 +322,76 @@ def marker_scenarios(w: ColExprWorld):
     return out
 
 
+def map_scenarios(w: ColExprWorld):
+    """`ColExpr.map` interpreted: one case per mapping entry, in the order of the mapping; the condition of an entry compares
+    the input with the key - a tuple / list key with each of its elements, any other key (a *string* too: it is one value, not
+    its characters) as a whole; the value is the entry's value; without `default` the input itself is the default."""
+    from .interp import Native
+    from .polsim import _OpsNS
+
+    class _TypedOps(_OpsNS):
+        """`ops.<name>`: opaque element-wise operators whose result type is Bool (the scenario only reads the tree that is built)"""
+
+        def __getattr__(self_, k):
+            o = super().__getattr__(k)
+            if "return_type" not in o.attrs:
+                o.attrs["ftype"] = w.EW
+                o.attrs["return_type"] = Native(lambda arg_types: w.B, "op.return_type")
+            return o
+
+    out = []
+    prev = w.env.get("ops")
+    w.env["ops"] = _TypedOps()
+    try:
+        return _map_scenarios(w)
+    finally:
+        if prev is not None:
+            w.env["ops"] = prev
+        else:
+            w.env.pop("ops", None)
+
+
+def _map_scenarios(w):
+    out = []
+    x = w.col(w.S, w.EW, "x")
+    mapping = {"ab": "v1", ("p", "qr"): "v2", 7: "v3", ("solo",): "v4", "": "v5"}
+    want = [["ab"], ["p", "qr"], [7], ["solo"], [""]]
+    want_vals = ["v1", "v2", "v3", "v4", "v5"]
+
+    def lit(o):
+        return o.attrs.get("val") if isinstance(o, Obj) and o.cls.name == "LiteralCol" else ("<not a literal>", o)
+
+    for label, kw in (("no default", {}), ("with a default", {"default": "dflt"})):
+        try:
+            r = w.p.call(w.p.method(x, "map"), [mapping], kw)
+        except PyRaise as e:
+            out.append(("ColExpr.map", f"map({label})", False, f"`x.map({mapping})` raises {e.name}: {e.msg}"))
+            continue
+        if not (isinstance(r, Obj) and r.cls.name == "CaseExpr"):
+            out.append(("ColExpr.map", f"map({label}) is a case expression", False, f"`x.map(..)` gives {r!r}"))
+            continue
+        cases = list(r.attrs.get("cases") or [])
+        got, vals, heads, fns = [], [], [], []
+        for c in cases:
+            cond, val = c[0], c[1]
+            args = list(cond.attrs.get("args") or []) if isinstance(cond, Obj) else []
+            heads.append(bool(args) and args[0] is x)
+            fns.append(getattr(cond.attrs.get("op"), "attrs", {}).get("name") if isinstance(cond, Obj) else None)
+            got.append([lit(a) for a in args[1:]])
+            vals.append(lit(val))
+        out.append(("ColExpr.map", f"map({label}): one `is_in` comparison of the input per entry, in order", fns == ["is_in"] * len(want) and all(heads),
+                    f"`x.map({mapping})` builds the conditions {fns} (first argument the input: {heads}); documented: one `x.is_in(..)` per entry"))  # fmt: skip
+        out.append(("ColExpr.map", f"map({label}): a string key is one value, a tuple key is its elements", got == want,
+                    f"`x.map({mapping})` compares the input with {got}; documented {want} - a string key is a single value (`'ab'` is not `'a'`, `'b'`), "
+                    "a tuple key stands for each of its elements"))  # fmt: skip
+        out.append(("ColExpr.map", f"map({label}): each entry yields its value", vals == want_vals, f"`x.map({mapping})` yields {vals}; documented {want_vals}"))
+        d = r.attrs.get("default_val")
+        ok = (d is x) if not kw else lit(d) == "dflt"
+        out.append(("ColExpr.map", f"map({label}): the default is {'the input itself' if not kw else 'the given value'}", ok,
+                    f"`x.map(.., {label})` has the default {d!r}; documented: {'the input expression (values without an entry stay as they are)' if not kw else 'the literal dflt'}"))  # fmt: skip
+    return out
+
+
 _cache: dict = {}
 
 
@@ -337,6 +407,11 @@ def scenarios(chk, m):
             for f in (case_scenarios, colfn_scenarios, marker_scenarios, eager_scenarios):
                 for rule, desc, ok, det in f(w):
                     res.setdefault(rule, []).append((desc, ok, det))
+            try:  # (a group of its own: when it cannot be interpreted the other groups stay decided)
+                for rule, desc, ok, det in map_scenarios(w):
+                    res.setdefault(rule, []).append((desc, ok, det))
+            except (AnalysisError, SymbolicBranch, KeyError) as e:
+                res["ColExpr.map"] = AnalysisError(f"ColExpr.map could not be interpreted: {str(e)[:160]}")
             _cache[k] = res
         except (AnalysisError, SymbolicBranch, KeyError) as e:
             _cache[k] = AnalysisError(f"expression typing rules could not be interpreted: {str(e)[:160]}")
@@ -352,6 +427,9 @@ def report(chk, m, rule, groups, floor=None):
         return False
     n = 0
     for g in groups:
+        if isinstance(res.get(g), AnalysisError):
+            chk.undecided.append(f"{rule}: {res[g]}")
+            return False
         anchor = mod.func({"eager.dtype": "ColFn.dtype"}.get(g, g))
         for desc, ok, det in res.get(g, []):
             n += 1
